@@ -67,9 +67,15 @@ PNewTryCore(mn, mx, m, textok, ok) ==
 \* keys: the names the request injects; names: the rule names its method
 \* targets ("*" = all installed rules)
 \* fail: a rule of this request fails at run time (so the call reports an error)
-ArriveCore(q, keys, names, fail) ==
+\* names under which the pool was given an api object at construction; a request may inject its own object under
+\* such a name: for that request the name refers to its object, afterwards never to it again (whether the api
+\* object is visible again to later requests is not promised: failmay)
+ApiKeys == {"kd"}
+ApiVal == 0 - 7
+
+ArriveCore(q, keys, names, fail, failmay) ==
   /\ q \notin DOMAIN rq
-  /\ rq' = (q :> [st |-> "arrived", inst |-> -1, keys |-> keys, names |-> names, fail |-> fail,
+  /\ rq' = (q :> [st |-> "arrived", inst |-> -1, keys |-> keys, names |-> names, fail |-> fail, failmay |-> failmay,
                   lo |-> done, ran |-> <<>>, wasCleared |-> cleared]) @@ rq
   /\ UNCHANGED <<pmin, pmax, free, holder, transit, dc, cur, cleared, inst, vers, done, pend, model>>
 
@@ -95,9 +101,12 @@ SpinCore == UNCHANGED pvars
 \* a rule of request q read injected key `key` and found the object of request `val`
 PeekCore(q, key, val) ==
   /\ q \in DOMAIN rq /\ rq[q].st = "holding"
-  /\ key \in DOMAIN dc[rq[q].inst]
-  /\ dc[rq[q].inst][key] = q
-  /\ val = q
+  /\ IF key \in rq[q].keys
+     THEN /\ key \in DOMAIN dc[rq[q].inst]
+          /\ dc[rq[q].inst][key] = q
+          /\ val = q
+     ELSE \* not injected by this request: only the pool's own api object can be there
+          key \in ApiKeys /\ val = ApiVal
   /\ UNCHANGED pvars
 
 \* a call made by a rule received arguments a and b, both computed from the calling request's id
@@ -139,7 +148,7 @@ ReturnCore(q, err, vals, checkVersion) ==
           /\ UNCHANGED <<holder, transit, dc>>
      ELSE /\ rq[q].st \in {"holding", "pushed"}
           \* when nothing ran (the targeted rule set is empty) error or not is unspecified
-          /\ DOMAIN rq[q].ran # {} => err = rq[q].fail
+          /\ (DOMAIN rq[q].ran # {} /\ ~rq[q].failmay) => err = rq[q].fail
           /\ checkVersion => VersionOK(q)
           /\ rq' = [rq EXCEPT ![q].st = "returned"]
           /\ IF rq[q].st = "holding"
